@@ -54,6 +54,8 @@ def build(kind, rng, et="QUAD4", h=1.0):
         beam_ = Models.Beam.Isotropic(2, _Ln(_Pt(0, 0), _Pt(2.0, 0), 0.5), _Mesher().Mesh_2D(_Dom(_Pt(), _Pt(0.1, 0.1))), 1000.0, 0.3)
         mesh = _Mesher().Mesh_Beams([beam_], elemType=_ET.SEG3)
         s = Simulations.Beam(mesh, Models.Beam.BeamStructure([beam_]))
+        s.rho = 2.0
+        s.Solver_Set_Hyperbolic_Algorithm(0.25)      # a dynamic run: speed and acceleration belong to the state of an iteration
         names = ["displacement", "Mz", "Stress"]
     else:
         raise ValueError(kind)
@@ -85,6 +87,12 @@ def snapshot(s, names):
         snap[n] = np.array(v, dtype=float).copy() if not isinstance(v, str) else v
     snap["__Nn"] = int(s.mesh.Nn)
     snap["__Ne"] = int(s.mesh.Ne)
+    # the rate fields a transient step starts from (zero for static runs), whatever the simulation advertises as results
+    for key, getter in (("__v", "_Get_v_n"), ("__a", "_Get_a_n")):
+        try:
+            snap[key] = np.array(getattr(s, getter)(s.problemType), dtype=float).copy()
+        except Exception as ex:  # noqa: BLE001
+            snap[key] = "error:" + type(ex).__name__
     return snap
 
 
@@ -99,6 +107,98 @@ def same(a, b, tol=1e-9):
         return a == b
     a, b = np.asarray(a, float), np.asarray(b, float)
     return a.shape == b.shape and (a.size == 0 or np.abs(a - b).max() <= tol * (1 + np.abs(b).max()))
+
+
+def mesh_diffs(mesh, m2):
+    """what differs between a mesh and the mesh read back from its file: coordinates, groups, connectivities, tags"""
+    diffs = []
+    if not same(m2.coord, mesh.coord, 0) or m2.dim != mesh.dim:
+        diffs.append("coordinates")
+    if list(m2.dict_groupElem) != list(mesh.dict_groupElem):
+        diffs.append("element groups")
+        return diffs
+    for t, g in mesh.dict_groupElem.items():
+        t = getattr(t, "value", t)
+        g2 = m2.dict_groupElem[g.elemType]
+        if not np.array_equal(g.connect, g2.connect):
+            diffs.append(f"{t} connectivity")
+        if sorted(g.nodeTags) != sorted(g2.nodeTags) or sorted(g.elementTags) != sorted(g2.elementTags):
+            diffs.append(f"{t} tag names")
+            continue
+        for tag in g.nodeTags:
+            if not np.array_equal(np.sort(g.Get_Nodes_Tag(tag)), np.sort(g2.Get_Nodes_Tag(tag))):
+                diffs.append(f"{t} nodes of tag {tag}")
+        for tag in g.elementTags:
+            if not np.array_equal(np.sort(g.Get_Elements_Tag(tag)), np.sort(g2.Get_Elements_Tag(tag))):
+                diffs.append(f"{t} elements of tag {tag}")
+    return diffs
+
+
+def mesh_record(mesh):
+    """private copy of what defines a mesh: coordinates and the connectivity of every group"""
+    return dict(coord=np.array(mesh.coord, dtype=float).copy(),
+                connect={getattr(t, "value", str(t)): np.array(g.connect).copy() for t, g in mesh.dict_groupElem.items()})
+
+
+def mesh_record_diffs(rec, mesh):
+    got = mesh_record(mesh)
+    diffs = []
+    if got["coord"].shape != rec["coord"].shape:
+        diffs.append(f"Nn={got['coord'].shape[0]} (saved {rec['coord'].shape[0]})")
+    elif not np.array_equal(got["coord"], rec["coord"]):
+        diffs.append("coordinates")
+    if list(got["connect"]) != list(rec["connect"]):
+        diffs.append("element groups")
+    else:
+        diffs += [f"{t} connectivity" for t, c in rec["connect"].items() if not np.array_equal(c, got["connect"][t])]
+    return diffs
+
+
+def run_study(kind, specs, folder, val):
+    """A static study solved on each mesh of `specs` in turn ((elemType, length a, divisions n): rectangle [0,a]x[0,1], mesh size a/n;
+    fixed at x=0, `val` prescribed at x=a), one Save_Iter per mesh, then Save(folder).
+    Returns the simulation, the field names and the harness-side record of every saved iteration."""
+    s, names, records = None, None, []
+    for et, a, n in specs:
+        mesh = M.mesh_2d(et, a=a, b=1.0, h=a / n)
+        if s is None:
+            if kind == "elastic":
+                s = Simulations.Elastic(mesh, Models.Elastic.Isotropic(2, E=8.0, v=0.25, planeStress=True, thickness=1.0))
+                names = ["displacement", "Svm", "Wdef"]
+            else:
+                s = Simulations.Thermal(mesh, Models.Thermal(2.0, 1.0))
+                names = ["thermal"]
+        else:
+            s.mesh = mesh
+        left = mesh.Nodes_Conditions(lambda x, y, z: x == 0)
+        right = mesh.Nodes_Conditions(lambda x, y, z: x == a)
+        s.Bc_Init()
+        if kind == "elastic":
+            s.add_dirichlet(left, [0.0, 0.0], ["x", "y"])
+            s.add_dirichlet(right, [val], ["x"])
+        else:
+            s.add_dirichlet(left, [0.0], ["t"])
+            s.add_dirichlet(right, [val * 10], ["t"])
+        s.Solve()
+        s.Save_Iter()
+        records.append(dict(mesh=mesh_record(mesh), snap=snapshot(s, names)))
+    s.Save(folder)
+    return s, names, records
+
+
+def loaded_diffs(s2, names, records):
+    """(iteration, what differs) for the first iteration of a loaded simulation that is not what the records say, else None"""
+    if s2.Niter != len(records):
+        return -1, [f"Niter={s2.Niter} (saved {len(records)})"]
+    for i in list(range(len(records))) + list(reversed(range(len(records)))):
+        s2.Set_Iter(i)
+        bad = ["mesh " + d for d in mesh_record_diffs(records[i]["mesh"], s2.mesh)]
+        if not bad:
+            now = snapshot(s2, names)
+            bad = [n for n in list(names) + ["__Nn", "__Ne"] if not same(now[n], records[i]["snap"][n], 1e-7)]
+        if bad:
+            return i, bad
+    return None
 
 
 def main():
@@ -160,7 +260,7 @@ def main():
                 if op in ("solve", "solve*"):
                     if op == "solve":
                         load += dy(rng, 0.0, 0.02, 256) if kind != "inelastic" else dy(rng, 0.0, 0.03, 256)
-                        if rng.random() < 0.25:
+                        if not (rng.random() >= 0.25):
                             load = max(0.0, load - 0.02)  # unloading
                     apply_load(s, s.mesh, kind, load)
                     try:
@@ -230,7 +330,7 @@ def main():
                         model_ops += ["query", str(i)]
                         ops_txt.append(f"Get_results({i})")
                     else:
-                        if op == "set" and kind.startswith("phasefield") and rng.random() < 0.5:
+                        if op == "set" and kind.startswith("phasefield") and not (rng.random() >= 0.5):
                             # restart variant of the public call: the history field is rebuilt from the restored state,
                             # the restored results are those of iteration i and the stored iterations stay what they were
                             s.Set_Iter(i, resetAll=True)
@@ -241,7 +341,7 @@ def main():
                             s.Result(names[0], iter=i)  # Result(..., iter=i) restores as a side effect
                         now = snapshot(s, names)
                         res.case((h, len(ops_txt), "restore"))
-                        bad = [n for n in list(names) + ["__Nn", "__Ne"] if not same(now[n], want[n], 1e-7)]
+                        bad = [n for n in list(names) + ["__Nn", "__Ne", "__v", "__a"] if not same(now[n], want[n], 1e-7)]
                         if bad:
                             key = f"restore sim={kind} fields={','.join(bad)}"
                             res.fail(key, f"after {'Set_Iter' if op == 'set' else 'Result(iter=)'}({i}) the results {bad} differ from those current when iteration {i} was saved", ident())
@@ -280,7 +380,7 @@ def main():
                 ops_txt.append(f"Set_Iter({i})")
                 model_ops += ["set", str(i)]
                 res.case((h, "sweep", i))
-                bad = [n for n in list(names) + ["__Nn", "__Ne"] if not same(now[n], snaps[i][n], 1e-7)]
+                bad = [n for n in list(names) + ["__Nn", "__Ne", "__v", "__a"] if not same(now[n], snaps[i][n], 1e-7)]
                 if bad:
                     res.fail(f"restore sim={kind} fields={','.join(bad)}", f"after Set_Iter({i}) the results {bad} differ from those current when iteration {i} was saved", ident())
                     break
@@ -339,7 +439,7 @@ def main():
                             s.Set_Iter(i2)
                             now = snapshot(s, names)
                             res.case((h, "after-save", rnd, i2))
-                            bad = [n for n in list(names) + ["__Nn", "__Ne"] if not same(now[n], snaps[i2][n], 1e-7)]
+                            bad = [n for n in list(names) + ["__Nn", "__Ne", "__v", "__a"] if not same(now[n], snaps[i2][n], 1e-7)]
                             if bad:
                                 res.fail(f"restore after Save sim={kind} fields={','.join(bad)}", f"Save(folder), {'folder changed, ' if rnd else ''}Set_Iter({i2}): {bad} differ from those current when iteration {i2} was saved", ident())
                                 break
@@ -369,7 +469,7 @@ def main():
                         for i2 in range(len(snaps)):
                             s3.Set_Iter(i2)
                             now = snapshot(s3, names)
-                            bad = [n for n in list(names) + ["__Nn", "__Ne"] if not same(now[n], snaps[i2][n], 1e-7)]
+                            bad = [n for n in list(names) + ["__Nn", "__Ne", "__v", "__a"] if not same(now[n], snaps[i2][n], 1e-7)]
                             if bad:
                                 res.fail(f"second save-load restore sim={kind} fields={','.join(bad)}", f"Save(A), Save(B), Load_Simu(B), Set_Iter({i2}): {bad} differ from those current when iteration {i2} was saved", ident())
                                 break
@@ -382,6 +482,59 @@ def main():
             expect.append((h, kind, list(ops_txt), len(snaps)))
             res.count("history:" + kind)
             res.sample(dict(history=h, sim=kind, ops=ops_txt[:10]))
+        # a save folder that is used again: the simulation read from a folder is the one saved there LAST, whatever the folder held before
+        #  - a study (several meshes in its history) is saved in a folder, a second study with other dimensions / meshes / number of
+        #    meshes is saved in the same folder (a script run again after a parameter was changed), Load_Simu gives the second one;
+        #  - one simulation saved in the same folder before and after its history grew by a mesh (a checkpoint) is read back complete.
+        # Expectation: the harness-side records (coordinates, connectivities, fields) taken when each iteration was saved.
+        for k in range(3 if args.tier == "quick" else 8):
+            kind = ["elastic", "thermal"][(k + args.seed) % 2]
+            ets = ["QUAD4", "TRI3", "QUAD8", "TRI6"]
+
+            def specs_(a, count):
+                return [(rng.choice(ets), a, rng.choice([2, 3, 4])) for _ in range(count)]
+
+            a1, a2 = rng.sample([1.0, 1.5, 2.0, 3.0], 2)
+            first = specs_(a1, rng.choice([1, 2, 3]))
+            if k % 3 == 0:
+                # same element types and divisions as the first study, other dimensions; the history may be longer
+                second = [(et, a2, n) for et, _, n in first] + specs_(a2, rng.choice([0, 1]))
+            else:
+                second = specs_(a2, rng.choice([1, 2, 3]))
+            folder = os.path.join(scratch, f"again{k}")
+            ident_ = dict(scenario="two studies saved one after the other in the same folder, then Load_Simu", sim=kind,
+                          first=first, second=second, spec="(elemType, length a, divisions n): rectangle [0,a]x[0,1], mesh size a/n")
+            res.case(("folder-used-again", k))
+            res.count("folder-used-again:" + kind)
+            try:
+                run_study(kind, first, folder, 0.01)
+                _, names2, records = run_study(kind, second, folder, 0.02)
+                bad = loaded_diffs(Load_Simu(folder), names2, records)
+                if bad:
+                    res.fail(f"save-load in a folder used before sim={kind}",
+                             f"Save(folder) of a study in a folder that held the Save of another study, Load_Simu(folder), Set_Iter({bad[0]}): {bad[1][:4]} differ from what was saved last", ident_)
+                    continue
+                # checkpoints: the simulation saved above goes on (one more mesh), and is saved in the same folder again
+                ident_ = dict(ident_, scenario="one simulation saved in the same folder before and after a new mesh and iteration, then Load_Simu")
+                s_, names2, records = run_study(kind, second, os.path.join(scratch, f"ckpt{k}"), 0.02)
+                et, a, n = rng.choice(ets), a2, rng.choice([3, 5])
+                ident_["added"] = (et, a, n)
+                newm = M.mesh_2d(et, a=a, b=1.0, h=a / n)
+                s_.mesh = newm
+                s_.Bc_Init()
+                s_.add_dirichlet(newm.Nodes_Conditions(lambda x, y, z: x == 0), [0.0, 0.0] if kind == "elastic" else [0.0], ["x", "y"] if kind == "elastic" else ["t"])
+                s_.add_dirichlet(newm.Nodes_Conditions(lambda x, y, z: x == a), [0.03] if kind == "elastic" else [0.3], ["x"] if kind == "elastic" else ["t"])
+                s_.Solve()
+                s_.Save_Iter()
+                records.append(dict(mesh=mesh_record(newm), snap=snapshot(s_, names2)))
+                s_.Save(os.path.join(scratch, f"ckpt{k}"))
+                res.case(("checkpoint", k))
+                bad = loaded_diffs(Load_Simu(os.path.join(scratch, f"ckpt{k}")), names2, records)
+                if bad:
+                    res.fail(f"save-load after a second Save in the same folder sim={kind}",
+                             f"Save(folder), new mesh, Solve, Save_Iter, Save(folder), Load_Simu(folder), Set_Iter({bad[0]}): {bad[1][:4]} differ from what was saved", ident_)
+            except Exception as ex:  # noqa: BLE001
+                res.fail(f"save-load in a folder used before raises sim={kind} {type(ex).__name__}", f"{type(ex).__name__}: {str(ex)[:150]}", ident_)
         # Mesh.Save / Load_Mesh round trip on every element type, with an extra user tag
         from EasyFEA.FEM import Load_Mesh
         types = M.ALL if args.tier == "thorough" else ["SEG3", "TRI6", "QUAD8", "TETRA10", "HEXA8", "PRISM6"]
@@ -393,27 +546,45 @@ def main():
             m2 = Load_Mesh(path)
             res.case(("mesh", et))
             res.count("mesh:" + et)
-            diffs = []
-            if not same(m2.coord, mesh.coord, 0) or m2.dim != mesh.dim:
-                diffs.append("coordinates")
-            if list(m2.dict_groupElem) != list(mesh.dict_groupElem):
-                diffs.append("element groups")
-            else:
-                for t, g in mesh.dict_groupElem.items():
-                    g2 = m2.dict_groupElem[t]
-                    if not np.array_equal(g.connect, g2.connect):
-                        diffs.append(f"{t} connectivity")
-                    if sorted(g.nodeTags) != sorted(g2.nodeTags) or sorted(g.elementTags) != sorted(g2.elementTags):
-                        diffs.append(f"{t} tag names")
-                        continue
-                    for tag in g.nodeTags:
-                        if not np.array_equal(np.sort(g.Get_Nodes_Tag(tag)), np.sort(g2.Get_Nodes_Tag(tag))):
-                            diffs.append(f"{t} nodes of tag {tag}")
-                    for tag in g.elementTags:
-                        if not np.array_equal(np.sort(g.Get_Elements_Tag(tag)), np.sort(g2.Get_Elements_Tag(tag))):
-                            diffs.append(f"{t} elements of tag {tag}")
+            diffs = mesh_diffs(mesh, m2)
             if diffs:
                 res.fail(f"mesh save-load elem={et} {diffs[0]}", f"Load_Mesh(Mesh.Save(...)) differs from the saved mesh in: {diffs[:4]}", dict(elemType=et))
+        # large meshes: an assembly meshed part by part and merged, with more nodes than a 16-bit index holds; its boundary groups
+        # (segments, points) use few nodes, some of them with the largest ids. Read back alone and as the second mesh of a history.
+        nbig = 256 + rng.choice([0, 1, 3])
+        et_big, et_small = rng.choice(["TRI3", "QUAD4"]), rng.choice(["TRI3", "QUAD4"])
+        ident_ = dict(scenario="Mesh.Merge of two plates", big=(et_big, "[0,1]x[0,1]", f"h=1/{nbig}"), small=(et_small, "[1,1.5]x[0,1]", "h=1/8"))
+        res.case(("mesh", "large-merged"))
+        res.count("mesh:large-merged")
+        try:
+            from EasyFEA import Mesher as _Mesher, ElemType as _ET, Mesh as _Mesh
+            from EasyFEA.Geoms import Domain as _Dom, Point as _Pt
+            big = _Mesher().Mesh_2D(_Dom(_Pt(0, 0), _Pt(1, 1), 1 / nbig), [], _ET(et_big), isOrganised=True)
+            small = _Mesher().Mesh_2D(_Dom(_Pt(1, 0), _Pt(1.5, 1), 1 / 8), [], _ET(et_small), isOrganised=True)
+            for name, mesh in (("big+small", _Mesh.Merge([big, small])), ("small+big", _Mesh.Merge([small, big]))):
+                ident_["order"] = name
+                rec = mesh_record(mesh)
+                m2 = Load_Mesh(mesh.Save(os.path.join(scratch, "meshes"), "large-" + name))
+                diffs = mesh_diffs(mesh, m2) or mesh_record_diffs(rec, mesh)
+                if diffs:
+                    res.fail(f"mesh save-load large merged mesh {diffs[0]}", f"Load_Mesh(Mesh.Save(...)) of a merged mesh with {mesh.Nn} nodes differs from the saved mesh in: {diffs[:4]}", ident_)
+                    break
+                if name == "big+small":
+                    s_ = Simulations.Elastic(small, Models.Elastic.Isotropic(2, E=8.0, v=0.25, planeStress=True, thickness=1.0))
+                    s_.Save_Iter()
+                    s_.mesh = mesh
+                    s_.Save_Iter()
+                    s_.Save(os.path.join(scratch, "large-simu"))
+                    s2 = Load_Simu(os.path.join(scratch, "large-simu"))
+                    s2.Set_Iter(0)
+                    s2.Set_Iter(1)
+                    diffs = mesh_record_diffs(rec, s2.mesh)
+                    if diffs:
+                        res.fail(f"save-load large merged mesh in the history {diffs[0]}",
+                                 f"Save / Load_Simu / Set_Iter(1): the mesh of iteration 1 (a merged mesh with {mesh.Nn} nodes) differs from the saved one in: {diffs[:4]}", ident_)
+                        break
+        except Exception as ex:  # noqa: BLE001
+            res.fail(f"mesh save-load large merged mesh raises {type(ex).__name__}", f"{type(ex).__name__}: {str(ex)[:150]}", ident_)
     finally:
         shutil.rmtree(scratch, ignore_errors=True)
 
